@@ -17,6 +17,7 @@ RULE = (
     "seeded setter histories (<= 6 operations from var, var_raw, len_scale scalar/list, anis, angles, nugget, optional "
     "arguments, rescale, dim, integral_scale, set_arg_bounds; in-range, boundary and out-of-range values) on 17 classes x "
     "plain/temporal/lat-lon/lat-lon+temporal; non-trivial = at least one accepted operation changed the model"
+    " Derived quantities (integral scales, len_scale_vec, sill, percentile scale, spectrum, spatial covariance) are read between operations and compared with a fresh model; one-element lists; construction routes (integral_scale, lists, var_raw) against setter routes."
 )
 ASSUMPTIONS = [
     "the shadow state in this file encodes the documented coupling rules (length-scale list => anis, TPL variance follows "
